@@ -64,7 +64,9 @@ fn check_bfs<D: Order + OutNeighbors + Clone>(d: &D, other: &D, other_src: &[usi
     o.check(bad.is_none(), "BfsDist:item-distance", || format!("item {:?}, reference hop distance {:?}", bad.unwrap(), lv.get(&bad.unwrap().0)));
     if n <= 40 && m.size() % 6 == 1 {
         crate::obs::iter_consistency(o, "Bfs", || Bfs::new(d, src.iter().copied()));
+        crate::obs::clone_midway(o, "Bfs", || Bfs::new(d, src.iter().copied()));
         crate::obs::iter_consistency(o, "BfsDist", || BfsDist::new(d, src.iter().copied()));
+        crate::obs::clone_midway(o, "BfsDist", || BfsDist::new(d, src.iter().copied()));
     }
     let want: Vec<usize> = (0..n).map(|v| lv.get(&v).copied().unwrap_or(usize::MAX)).collect();
     o.eq("BfsDist::distances", &BfsDist::new(d, src.iter().copied()).distances(), &want);
